@@ -361,7 +361,9 @@ func runC03(e *sim.Env) {
 			// a time-out although the reply was there in time?
 			if em.ackAt >= 0 && p.Mode != "cut" {
 				arrive := em.ackAt + lat
-				slack := e.StallsOverlapping(em.emitAt, en.at) + lat + int64(time.Millisecond)
+				// (on long-polling the reply waits for the next poll request: the response that is on its
+				// way, the next request, its response - up to three one-way trips after the peer acked)
+				slack := e.StallsOverlapping(em.emitAt, en.at) + 2*lat + int64(time.Millisecond)
 				if arrive+slack < deadline {
 					e.Violate("C03/timeout-despite-reply", sig, "emission #%d (time-out %v, deadline t=%d): the peer acked at t=%d, the reply reached the emitter by t=%d, yet the callback got ErrAckTimeout", id, em.T, deadline, em.ackAt, arrive)
 				}
